@@ -68,6 +68,14 @@ func main() {
 				if err := format.Node(&buf, fset, f); err != nil {
 					fatal(err)
 				}
+				if os.Getenv("VERIF_BUF4") != "" && n == "inmemory_logger.go" {
+					src := buf.String()
+					if !strings.Contains(src, "BufferSize = 1024") {
+						fatal(fmt.Errorf("BufferSize constant not found in %s", n))
+					}
+					buf.Reset()
+					buf.WriteString(strings.Replace(src, "BufferSize = 1024", "BufferSize = 4", 1))
+				}
 				dst := filepath.Join(out, strings.ReplaceAll(p, "/", "_")+"_"+n)
 				if err := os.WriteFile(dst, buf.Bytes(), 0o644); err != nil {
 					fatal(err)
